@@ -185,6 +185,9 @@ class C11(Property):
         ("antismash/common/secmet/qualifiers/secmet.py", "SecMetQualifier.Domain.from_json"),
         ("antismash/common/hmm_rule_parser/cluster_prediction.py", "CDSResults.__init__"),
         ("antismash/common/hmm_rule_parser/cluster_prediction.py", "CDSResults.annotate"),
+        ("antismash/common/hmm_rule_parser/cluster_prediction.py", "RuleDetectionResults.annotate_cds_features"),
+        ("antismash/common/secmet/qualifiers/secmet.py", "SecMetQualifier.add_domains"),
+        ("antismash/common/secmet/qualifiers/gene_functions.py", "GeneFunctionAnnotations.add"),
         ("antismash/common/hmm_rule_parser/cluster_prediction.py", "CDSResults.to_json"),
         ("antismash/common/hmm_rule_parser/cluster_prediction.py", "CDSResults.from_json"),
         ("antismash/common/hmm_rule_parser/cluster_prediction.py", "RuleDetectionResults.schema_version"),
@@ -244,6 +247,10 @@ class C11(Property):
         ("antismash/common/hmmer.py", "HmmerResults.to_json"),
         ("antismash/common/hmmer.py", "HmmerResults.from_json"),
         ("antismash/common/hmmer.py", "HmmerResults.refilter"),
+        ("antismash/common/hmmer.py", "HmmerResults.add_to_record"),
+        ("antismash/detection/nrps_pks_domains/domain_identification.py", "generate_domain_features"),
+        ("antismash/detection/nrps_pks_domains/domain_identification.py", "CDSResult.annotate_domains"),
+        ("antismash/detection/nrps_pks_domains/__init__.py", "regenerate_previous_results"),
         ("antismash/detection/full_hmmer/__init__.py", "regenerate_previous_results"),
         ("antismash/detection/cluster_hmmer/__init__.py", "regenerate_previous_results"),
         ("antismash/modules/tta/tta.py", "TTAResults.schema_version"),
@@ -278,7 +285,10 @@ class C11(Property):
         "for exact positions; fuzzy positions (<5, >9) are not generated",
         "JSON values of an unexpected type, NaN/inf scores, extra qualifiers on protoclusters, T2PKS qualifiers and "
         "sideloaded protoclusters inside rule results are outside the modelled domain and not generated",
-        "get_ruleset(options).get_rule_names() is an input of the model (read from the real rule files per case)",
+        "get_ruleset(options).get_rule_names() is an input of the model (read from the real rule files per case); "
+        "results of records with genes are produced by the real run_on_record with only hmmsearch replaced by the case's hits",
+        "results file: the record body (record_to_json / record_from_json) is opaque in the model (C10); identical HMM hits "
+        "inside one gene (one dictionary key in generate_domain_features) are not generated",
         "results classes of modules that need external binaries (clusterblast, …) are not modelled",
     ]
 
@@ -579,7 +589,7 @@ class C11(Property):
         thresholds = [rng.choice(around) for _ in range(4)]
         if rng.random() < 0.5:
             thresholds[2] = thresholds[0]
-        steps = [{"threshold": t} for t in thresholds[1:]]
+        steps = [{"threshold": t, "mode": rng.choice(["run", "run", "run", "not_in_all", "disabled"])} for t in thresholds[1:]]
         mut = None
         if rng.random() < 0.3:
             mut = rng.choice(["schema:2", "schema:4", "record_id", "empty_json"])
@@ -778,8 +788,7 @@ class C11(Property):
 
     def impl_nrpspks(self, case: Dict[str, Any]) -> Dict[str, Any]:
         import orjson
-        from antismash.detection.nrps_pks_domains import domain_identification as di
-        from antismash.detection.nrps_pks_domains import module_identification as mi
+        from antismash.detection import nrps_pks_domains
         rec_a = self.nrps_record(case)
         try:
             x = self.nrps_generate(case, rec_a)
@@ -803,9 +812,10 @@ class C11(Property):
         def regen(j: Any) -> Any:
             rec = self.nrps_record(case, cur_record_id)
             records.append(rec)
-            return di.NRPSPKSDomains.from_json(j, rec)
+            return nrps_pks_domains.regenerate_previous_results(j, rec, None)
         self.cycle(obs, j_in, regen, lambda y: y.to_json())
         if obs.get("outcome") == "reuse":
+            obs["domain_ids"] = [d.domain_id for d in records[0].get_antismash_domains()]
             try:
                 obs["_obj"].add_to_record(records[0])
                 obs["features_equal"] = feature_obs(records[0]) == feature_obs(rec_a)
@@ -1003,6 +1013,12 @@ class C11(Property):
             y = obs["_obj"]
             obs["protos"] = [{"loc": loc_obs(p.location), "core": loc_obs(p.core_location), "product": p.product}
                              for p in y.get_predicted_protoclusters()]
+            # what regeneration annotated on the fresh record copy
+            obs["annotations"] = sorted(
+                [cds.get_name(),
+                 [[d.name, dec_of(d.evalue), dec_of(d.bitscore), d.nseeds, d.tool] for d in cds.sec_met.domains],
+                 [[str(f.function), f.tool, f.description, f.product] for f in cds.gene_functions]]
+                for cds in records[0].get_cds_features() if cds.sec_met)
             try:
                 feats_a, bytes_a = self.det_observe(x, rec_a)
                 feats_b, bytes_b = self.det_observe(y, records[0])
@@ -1265,6 +1281,7 @@ class C11(Property):
                     x.add_to_record(rec_a)
                     y.add_to_record(records[0])
                     obs["features_equal"] = feature_obs(rec_a) == feature_obs(records[0])
+                    obs["domain_ids"] = [d.domain_id for d in records[0].get_pfam_domains()]
                 if changed:
                     # a second regeneration under the same (new) thresholds must be stable
                     second: Dict[str, Any] = {}
@@ -1341,28 +1358,60 @@ class C11(Property):
         obs: Dict[str, Any] = {"json_in": to_wire(j_in), "mutated": bool(mut), "gc": dec_of(gc), "all_codons": all_codons,
                                "ctx": {"record_id": cur_record_id, "cds_names": []}, "steps": [],
                                "n_codons": len(all_codons)}
-        cur = j_in
+        from antismash import main
+        name = "antismash.modules.tta"
+        module_results: Dict[str, Any] = {name: j_in}
         for step in case["steps"]:
-            opts = config(tta_threshold=fl(step["threshold"]))
+            mode = step.get("mode", "run")
+            config(tta_threshold=fl(step["threshold"]))
             rec = self.tta_record(case, cur_record_id)
             entry: Dict[str, Any] = {}
+            seen: Dict[str, Any] = {"outcome": "none", "called": False, "regenerated": None}
+
+            def regen(previous: Any, record: Any, options: Any) -> Any:
+                try:
+                    seen["regenerated"] = tta.regenerate_previous_results(orjson.loads(orjson.dumps(previous)), record, options)
+                except Exception as exc:
+                    seen["outcome"] = outcome_of(exc)
+                    raise
+                seen["outcome"] = "discard" if seen["regenerated"] is None else "reuse"
+                return seen["regenerated"]
+
+            def run(record: Any, results: Any, options: Any) -> Any:
+                seen["called"] = True
+                return tta.run_on_record(record, results, options)
+            proxy = SimpleNamespace(__name__=name, regenerate_previous_results=regen, is_enabled=tta.is_enabled,
+                                    run_on_record=run)
+            options = SimpleNamespace(tta_threshold=fl(step["threshold"]), tta_enabled=mode != "disabled", minimal=True,
+                                      all_enabled_modules=[] if mode == "not_in_all" else [proxy])
             try:
-                regenerated = tta.regenerate_previous_results(orjson.loads(orjson.dumps(cur)), rec, opts)
+                main.run_module(rec, proxy, options, module_results, {})
             except Exception as exc:  # pylint: disable=broad-except
-                entry["outcome"] = outcome_of(exc)
+                entry["outcome"] = seen["outcome"] if seen["outcome"].startswith("refuse") else outcome_of(exc)
                 obs["steps"].append(entry)
                 break
-            entry["outcome"] = "discard" if regenerated is None else "reuse"
-            final = tta.run_on_record(rec, regenerated, opts)
-            entry["ran"] = final is not regenerated
-            final.add_to_record(rec)
-            entry["json"] = to_wire(orjson.loads(orjson.dumps(final.to_json())))
-            entry["features"] = [loc_obs(f.location) for f in final.features]
-            # what a fresh run under these options stores
-            fresh = tta.detect(self.tta_record(case, cur_record_id), opts)
-            entry["equals_fresh"] = orjson.dumps(fresh.to_json()) == orjson.dumps(final.to_json())
+            final = module_results.get(name)
+            entry["outcome"] = seen["outcome"]
+            entry["called"] = seen["called"]
+            entry["ran"] = seen["called"] and final is not seen["regenerated"]
+            if final is None:
+                entry["json"] = None
+                entry["features"] = []
+                entry["equals_fresh"] = True
+                module_results = {}
+            else:
+                try:
+                    final.add_to_record(rec)
+                    entry["features"] = [loc_obs(f.location) for f in final.features]
+                except ValueError as exc:
+                    entry["features"] = outcome_of(exc)
+                entry["json"] = to_wire(orjson.loads(orjson.dumps(final.to_json())))
+                # what a fresh run under these options stores (only comparable for results of this record)
+                fresh = tta.detect(self.tta_record(case, cur_record_id), SimpleNamespace(tta_threshold=fl(step["threshold"])))
+                entry["equals_fresh"] = final.record_id != rec.id \
+                    or orjson.dumps(fresh.to_json()) == orjson.dumps(final.to_json())
+                module_results = {name: orjson.loads(orjson.dumps(final.to_json()))}
             obs["steps"].append(entry)
-            cur = orjson.loads(orjson.dumps(final.to_json()))
         config()
         return obs
 
@@ -1589,8 +1638,9 @@ class C11(Property):
             line.update({"max_evalue": obs["max_evalue"], "min_score": obs["min_score"], "op": case["op"]})
         elif kind == "tta":
             line.update({"gc": obs["gc"], "all_codons": obs["all_codons"],
-                         "steps": [{"threshold": dec_of(fl(s["threshold"])), "record_id": obs["ctx"]["record_id"]}
-                                   for s in case["steps"]]})
+                         "steps": [{"threshold": dec_of(fl(s["threshold"])), "record_id": obs["ctx"]["record_id"],
+                                    "in_all": s.get("mode", "run") != "not_in_all",
+                                    "enabled": s.get("mode", "run") != "disabled"} for s in case["steps"]]})
         return line
 
     def judge(self, case: Dict[str, Any], obs: Dict[str, Any], drv: Optional[Dict[str, Any]]) -> Judgement:
@@ -1623,10 +1673,15 @@ class C11(Property):
             if obs["json_out"] != drv["json"]:
                 corr = False
                 detail = "regenerated JSON differs: " + self.first_diff(obs["json_out"], drv["json"])
-            for key in ("protos", "areas"):
+            if corr and "domain_ids" in obs and obs["domain_ids"] != drv.get("domain_ids"):
+                corr = False
+                detail = f"feature identifiers: implementation {obs['domain_ids'][:6]} vs model {drv.get('domain_ids', [])[:6]}"
+            for key in ("protos", "areas", "annotations"):
                 if corr and key in obs:
                     mine = drv.get(key) if key == "protos" else {"subregions": drv.get("subregions"),
                                                                 "protoclusters": drv.get("protoclusters")}
+                    if key == "annotations":
+                        mine = sorted(drv.get(key, []))
                     if obs[key] != mine:
                         corr = False
                         detail = f"{key}: implementation {obs[key]} vs model {mine}"
@@ -1726,6 +1781,9 @@ class C11(Property):
                 spec_ok = False
                 detail = detail or (f"step {i}: results after {step['outcome']} differ from a fresh run under the "
                                     f"current threshold: {step}")[:600]
+            if step["outcome"] == "reuse" and "json" in step and step["json"] is None:
+                spec_ok = False
+                detail = detail or f"step {i}: results were regenerated but run_module did not keep them"
             if step["outcome"] == "reuse" and i < len(msteps) and msteps[i].get("may_reuse") is False:
                 spec_ok = False
                 detail = detail or f"step {i}: results reused across a schema change"
@@ -1742,14 +1800,16 @@ class C11(Property):
                 break
             if "json" not in step:
                 break
-            if step["ran"] != m["ran"] or step["json"] != m["json"] or step["features"] != m["features"]:
+            if step["ran"] != m["ran"] or step["json"] != m["json"] or step["features"] != m["features"] \
+                    or step["called"] != m["called"]:
                 corr = False
                 detail = detail or f"step {i}: implementation {step} vs model {m}"[:800]
                 break
             if not m["reference_ok"]:
                 spec_ok = False
                 detail = detail or f"step {i}: model result differs from the reference of the spec"
-        outcomes = tuple(sorted({"tta:" + s["outcome"].split(":")[0] for s in obs["steps"]}))
+        outcomes = tuple(sorted({"tta:" + s["outcome"].split(":")[0] for s in obs["steps"]}
+                                | {"tta:mode:" + s.get("mode", "run") for s in case["steps"]}))
         return Judgement(corr, spec_ok, nontrivial=obs["n_codons"] > 0, tags=("tta",) + outcomes
                          + (("mutated",) if obs["mutated"] else ("same-settings",)), detail=detail)
 
